@@ -32,6 +32,43 @@ PROPS = {
                                   "refinement theorem proved for Polygon/MultiLineString; MultiPoint/MultiPolygon machines are checked against their specs by the correspondence run only"],
         assumptions=["Clone is the identity in the value model (storage separation is C16)", "pushed parts are valid geometries of their own layout"],
     ),
+    "C05": dict(
+        modules=["GeomVerif.Properties.C05"],
+        n_quick=6000, n_thorough=120000, thorough_seeds=4, min_theorems=6,
+        rule="geometries of the WKT domain: 7 types x XY/XYZ/XYM/XYZM, finite ordinates (small integers 1/3 of the time, else the decimal stress pool of C18: "
+             "+-0, dyadic ties, tiny to 1e-25, huge to 1e300, random finite bit patterns), linestrings of 0 or 2..4 points, closed rings of 4..6 points, EMPTY "
+             "points / lines / polygons as members at any position (P about 1/5), collections nested to depth 2 (1/40: 3..22 extra levels), empty collections with "
+             "a fixed layout. Half the cases: Marshal -> text -> Unmarshal (op enc); half: a random standard spelling of the geometry (op spell): letter case "
+             "(upper/lower/title/random), white space runs from {space, tab, LF, CRLF, VT, FF} or none where optional, bare or parenthesised multipoint members, "
+             "Z/M/ZM attached or detached (1/6: omitted for non-empty XYZ/XYZM), numbers as shortest 'f', 'e'/'E' with or without '+' and leading exponent zeros, "
+             "trailing zeros, '.5', '5.', leading zeros, %.17g. Go's parse result is compared at the flat level (layout, stride, flat coords, ends/endss) with "
+             "the regenerated LALR model, with the independent reference reader and with SetCoords of the original. non-trivial = all",
+        nontrivial=lambda op, inp: True,
+        trusted_base=TB_COMMON + ["harness/extract_wkt.go translates wkt.gen.go's tables verbatim and each `case N:` body of its action switch to a constructor of WktAct.Act by template "
+                                  "(unrecognised body -> Tie failure); the meaning given to each constructor in Model/WktParse.lean and the hand port of the goyacc driver loop / "
+                                  "lexer are validated by the correspondence only",
+                                  "strconv.ParseFloat / FormatFloat are trusted stdlib; Spec/ParseFloat.lean (exact decimal -> nearest binary64, ties to even) is compared with them on every number",
+                                  "the reference reader Spec/WktRef.lean is hand-written from the OGC BNF; it treats NEL/NBSP as white space and NUL as end of text like the library's byte lexer"],
+        assumptions=["finite ordinates", "texts shorter than 800 significant digits per number"],
+    ),
+    "C06": dict(
+        modules=["GeomVerif.Properties.C06"],
+        n_quick=6000, n_thorough=150000, thorough_seeds=4, min_theorems=8,
+        rule="strings: a fixed corpus (NUL, NBSP/NEL, nested base/M/Z collections, 40-deep nesting, long lines around the error position), every byte value 0..255 alone "
+             "and inside two token contexts, every token sequence up to length 3 (quick) / 5 (thorough) over a 13-symbol alphabet {POINT, POINT M, POINT Z, "
+             "GEOMETRYCOLLECTION, ~ M, ~ Z, EMPTY, (, ), ',', 1, LINESTRING, MULTIPOINT ZM}, then random: token soup over all tags x suffix spellings, 'layout soup' "
+             "(syntactically plausible nested texts whose tags, suffixes, EMPTYs, arities 1..5 and ring closure are drawn independently; 1/4 of the stream), valid "
+             "spelled geometries, byte- and token-level mutations and splices of valid texts, random bytes. Go's result (flat representation, or the rendered "
+             "Error() text byte for byte) must equal the model's; accepted geometries are checked for consistency, against the reference reader, and re-encoded "
+             "and re-parsed. non-trivial = accepted, or rejected after at least one token (input longer than 2 bytes)",
+        nontrivial=lambda op, inp: len(inp) > 4,
+        trusted_base=TB_COMMON + ["harness/extract_wkt.go (tables verbatim, actions by template, skeleton fingerprints) and the hand port of the goyacc driver loop, lexer and Error() in "
+                                  "Model/WktParse.lean; that the tables only produce protocol-following call sequences, index in range and terminate is checked on every explored "
+                                  "input (ghost trace), not proved",
+                                  "unicode.IsLetter/IsSpace/IsDigit/ToUpper on Latin-1 are hard-coded in the model and exercised for all 256 byte values on every run",
+                                  "strconv.ParseFloat trusted (reference in Spec/ParseFloat.lean compared on every number)"],
+        assumptions=["inputs are Go strings (arbitrary bytes)"],
+    ),
     "C08": dict(
         modules=["GeomVerif.Properties.C08"],
         n_quick=20000, n_thorough=300000, thorough_seeds=4, min_theorems=4,
